@@ -115,7 +115,7 @@ def main(args):
                "configurations (cache_remote on/off x lru / pass-through / evicting caches x handler modes ok, fail-once, "
                "fail-always) and exports every maximal history with the expected answer, handler-call count and store after "
                "each step; each is replayed on a real RefResolver (alternately through resolve() and through validation of "
-               "{\"$ref\": url}) with counting handlers and a stubbed urlopen. code side: seeded random histories of "
+               "{\"$ref\": url}) with counting handlers and a stubbed urlopen; the store's key normalisation is a separate refinement model (MC_UriDict: the URIDict vs a plain map over normalised keys, all histories of set/delete with differently spelled keys). code side: seeded random histories of "
                "length <= 12 recorded from real resolvers, the whole history validated by TLC (Trace_C15). Non-trivial: a "
                "history touching a remote document; distinct by (configuration, history)." % nops)
     cfgs = sorted(glob.glob(os.path.join(tlc.SPEC, "mc", "MC_C15_%s_*.cfg" % args.tier)))
@@ -151,6 +151,31 @@ def main(args):
     ck.sample({"cache_remote": tasks[7][0], "cache_kind": tasks[7][1], "handler_modes": tasks[7][2],
                "history_with_expected_observations": tasks[7][3][0]})
 
+    # ---- the store is a mapping keyed by normalised URIs: the URIDict refines a plain map over Uri keys (MC_UriDict) ------
+    from jsonschema import _utils
+    ru = tlc.run("mc/MC_UriDict.tla", cfg="mc/MC_UriDict_%s.cfg" % args.tier, workers=8, timeout=3000)
+    if ru.violation:
+        raise tlc.MachineryFailure("URIDict model violated: " + ru.violation)
+    ck.add_tlc(ru)
+    for ex in ru.exports:
+        dct = _utils.URIDict()
+        ck.replayed += 1
+        ck.count(("uridict", repr([(o["op"], o["u"], o["v"]) for o in ex["h"]])), True)
+        for k, o in enumerate(ex["h"]):
+            u = "".join(map(chr, o["u"]))
+            try:
+                if o["op"] == "set":
+                    dct[u] = o["v"]
+                else:
+                    del dct[u]
+                got = {"len": len(dct), "get": sorted(("".join(map(chr, sp)), dct.get("".join(map(chr, sp)), -1)) for sp, _ in o["get"].values())}
+            except Exception as e:  # noqa
+                got = {"raised": "%s: %s" % (type(e).__name__, e)}
+            want = {"len": o["len"], "get": sorted(("".join(map(chr, sp)), v) for sp, v in o["get"].values())}
+            if got != want:
+                ck.violation("uridict_step", {"operations": [(x["op"], "".join(map(chr, x["u"])), x["v"]) for x in ex["h"][:k + 1]],
+                                              "expected": want, "observed": got, "source": "MC_UriDict"})
+                break
     # ---- code -> spec: random longer histories, whole history judged by TLC ----------------------------------
     n = 600 if quick else 20000
     recs, real = [], {}
